@@ -49,7 +49,8 @@ func cmdSelftest(args []string) int {
 	}
 	e.nworkers = 1
 	e.concrete = mrand.New(mrand.NewSource(*seed))
-	total, agree, skipped, modelDep := 0, 0, 0, 0
+	total, agree, skipped, modelDep, weak := 0, 0, 0, 0, 0
+	weakOK := map[string]bool{"vfH_dial_logic": true, "vfH_negotiate": true}
 	var bad []string
 	for _, h := range list {
 		for i := 0; i < *n; i++ {
@@ -106,8 +107,21 @@ func cmdSelftest(args []string) int {
 					break
 				}
 			}
+			natFail := ""
+			for _, d := range strings.Split(nat, ",") {
+				if strings.HasSuffix(d, "=false") {
+					natFail = d
+					break
+				}
+			}
+			natCrashed := strings.Contains(out, "panic") || out == ""
 			if nat == eng || (engFail != "" && strings.HasSuffix(nat, engFail) && strings.HasPrefix(eng, nat)) {
 				agree++
+			} else if weakOK[h] && engFail == natFail && !natCrashed {
+				// harnesses with engine-only assertions (guarded by vfSymbolic): the
+				// sequences differ by construction; outcomes must still agree
+				agree++
+				weak++
 			} else {
 				bad = append(bad, fmt.Sprintf("%s sample %d: engine [%s] status=%s / native [%s] (%s)", h, i, truncStr(eng, 300), e.selfStatus, truncStr(nat, 300), truncStr(out, 200)))
 			}
@@ -117,7 +131,7 @@ func cmdSelftest(args []string) int {
 	for _, b := range bad {
 		fmt.Println("SELFTEST-MISMATCH:", b)
 	}
-	fmt.Printf("selftest: %d concrete runs compared with native execution, %d agree, %d skipped (inputs outside assumptions), %d not compared (deflate model in use)\n", total, agree, skipped, modelDep)
+	fmt.Printf("selftest: %d concrete runs compared with native execution, %d agree (%d of them on outcome only), %d skipped (inputs outside assumptions), %d not compared (deflate model in use)\n", total, agree, weak, skipped, modelDep)
 	if len(bad) > 0 {
 		return 1
 	}
